@@ -435,6 +435,9 @@ func init() {
 		},
 		Floors: func(c *Cov, tier string) []string {
 			var miss []string
+			if n := c.Matrix["C01_op_verdict"]["honest-r-looks-like-text/accept"]; n < 100 {
+				miss = append(miss, fmt.Sprintf("honest signatures whose r word reads as text accepted: %d", n))
+			}
 			for _, op := range AttOps {
 				for idx := 0; idx < 3; idx++ {
 					if c.Matrix["C01_op_index"][fmt.Sprintf("%s@%d", op, idx)] == 0 {
